@@ -14,6 +14,8 @@
    tomb.Dying() / Client.Closed()            st_dying / st_closed
    Go map iteration, select with several     explicit oracle arguments of the operation
    ready cases                                 (validated by the model, arbitrary in the theorems)
+   (Publish towards a closing connection: enqueued while there is room, dropped when full —
+    /repo commit 5be9d50; before that the select dropped with probability 1/2)
 
    Every mutex-protected method is one atomic step with an explicit result.
    What is NOT a single step in the code and how it is modelled:
@@ -321,7 +323,7 @@ Definition enqueue (m : message) (s : session) : session :=
   if use_temp m then Sess (s_subs s) (s_tq s ++ [live_copy m]) (s_sq s) (s_act s)
   else Sess (s_subs s) (s_tq s) (s_sq s ++ [live_copy m]) (s_act s).
 
-Inductive action := ANone | ADrop | ASkip | AEnq | AErr | ABlock | AMaybe.
+Inductive action := ANone | ADrop | ASkip | AEnq | AErr | ABlock.
 
 Definition is_full (cap : N) (q : list message) : bool := cap <=? N.of_nat (length q).
 
@@ -335,8 +337,8 @@ Definition classify (st : state) (c : conn) (m : message) (s : session) : action
       | None => if full then ADrop else AEnq                       (* offline: ignore the message if the queue is full *)
       | Some c' =>
           if c' =? c then (if full then AErr else AEnq)             (* own queue: never wait *)
-          else if mem_n c' (st_dying st) then (if full then ASkip else AMaybe)   (* select { queue <- msg; <-Closing() } *)
-          else (if full then ABlock else AEnq)                      (* wait for room *)
+          else if full then (if mem_n c' (st_dying st) then ASkip else ABlock)   (* wait for room or for Closing() *)
+          else AEnq                                                 (* room: enqueued, closing or not *)
       end
   end.
 
@@ -346,13 +348,12 @@ Definition is_block (a : action) : bool := match a with ABlock => true | _ => fa
 Definition deliver (err : bool) (got : list skey) (k : skey) (a : action) (m : message) (s : session) : session :=
   match a with
   | AEnq => if err then (if mem_key k got then enqueue m s else s) else enqueue m s
-  | AMaybe => if mem_key k got then enqueue m s else s
   | _ => s
   end.
 
 (* got: the sessions that received the message, consulted only where the Go code is
-   not deterministic: a receiver that is closing (select with two ready cases) and the
-   sessions visited before the publisher's own full queue ended the call (map order). *)
+   not deterministic: the sessions visited before the publisher's own full queue ended
+   the call with ErrQueueFull (map order). *)
 Definition publish (st : state) (c : conn) (m : message) (got : list skey) : result * state :=
   let acts_t := map (fun e => classify st c m (snd e)) (st_temps st) in
   let acts_s := map (fun e => classify st c m (snd e)) (st_stored st) in
@@ -394,19 +395,28 @@ Definition dequeue (st : state) (c : conn) (temp : bool) : result * state :=
 Definition cid_of (st : state) (c : conn) : bytes :=
   match alookup N.eqb c (st_cid st) with Some id => id | None => [] end.
 
+(* broker/client.go calls Terminate once per connection, from its cleanup, after the Setup
+   call has returned (whatever it returned) *)
 Definition terminate (st : state) (c : conn) : result * state :=
-  let stored :=
-    match alookup N.eqb c (st_sess st) with
-    | Some (KStored id) =>
-        match alookup bytes_eqb id (st_stored st) with
-        | Some s => aset bytes_eqb id (Sess (s_subs s) (s_tq s) (s_sq s) None) (st_stored st)
-        | None => st_stored st
-        end
-    | _ => st_stored st
-    end in
-  (ROk, St (st_cap st) stored (aremove N.eqb c (st_temps st)) (aremove bytes_eqb (cid_of st c) (st_active st))
-           (st_retained st) (st_closing st) (aremove N.eqb c (st_sess st)) (st_cid st) (st_dying st)
-           (st_closed st) (add_n c (st_term st)) (st_pending st)).
+  match alookup N.eqb c (st_cid st) with
+  | None => (RMisuse, st)
+  | Some id =>
+      if mem_n c (st_term st) || match st_pending st with Some p => p_conn p =? c | None => false end
+      then (RMisuse, st)
+      else
+        let stored :=
+          match alookup N.eqb c (st_sess st) with
+          | Some (KStored i) =>
+              match alookup bytes_eqb i (st_stored st) with
+              | Some s => aset bytes_eqb i (Sess (s_subs s) (s_tq s) (s_sq s) None) (st_stored st)
+              | None => st_stored st
+              end
+          | _ => st_stored st
+          end in
+        (ROk, St (st_cap st) stored (aremove N.eqb c (st_temps st)) (aremove bytes_eqb id (st_active st))
+                 (st_retained st) (st_closing st) (aremove N.eqb c (st_sess st)) (st_cid st) (st_dying st)
+                 (st_closed st) (add_n c (st_term st)) (st_pending st))
+  end.
 
 Definition active_conns (st : state) : list conn :=
   flat_map (fun e => match s_act (snd e) with Some c => [c] | None => [] end) (st_temps st) ++
